@@ -310,6 +310,14 @@ Theorem css_chunk_exact : forall g e c, wf_cgraphb g = true -> (e < length g)%na
 Proof. exact css_chunk_exact_all. Qed.
 Print Assumptions css_chunk_exact.
 
+(* the same with ordinary reachability along "@import" edges (loop removal), given that no
+   "@import" points at file 0, the runtime, which the Go walk treats as already visited *)
+Theorem css_chunk_reachable : forall g e c, wf_cgraphb g = true -> no_zero_targetb g = true -> (e < length g)%nat ->
+  (In c (css_chunk_files g e) <->
+   exists f root, jreach g e f /\ cf_stub (getc g f) = Some root /\ root <> 0%nat /\ creach g root c).
+Proof. exact css_chunk_reachable_all. Qed.
+Print Assumptions css_chunk_reachable.
+
 (* ... each of them once (all but the last copy are dropped) *)
 Theorem css_chunk_nodup : forall g e, NoDup (css_chunk_files g e).
 Proof. exact css_chunk_nodup_all. Qed.
